@@ -231,7 +231,9 @@ func checkC14(c *Check) {
 		return ok && isErrorT(ta.AssertedType) && vCall("(reflect.Value).Interface", vIs(respVal))(ta.X)
 	}
 	isErrEdge := edgesWhere(lit, cBool(errOK), true)
-	nonNilErr := edgesWhere(lit, cCmp(token.NEQ, errV, vNil), true)
+	// err != nil, or simply the ok edge of the assertion: x.(error) succeeds only for a non-nil interface value,
+	// so the extra test is redundant (modernisers remove it)
+	nonNilErr := union(edgesWhere(lit, cCmp(token.NEQ, errV, vNil), true), isErrEdge)
 	kindInt := edgesWhere(lit, cCmp(token.EQL, vCall("(reflect.Value).Kind", valAt(0)), vConstInt(reflectKindInt)), true)
 	two := edgesWhere(lit, cCmp(token.EQL, vLen(valsP), vConstInt(2)), true)
 	// statuses
